@@ -25,6 +25,14 @@ CHECKS["C06"]=dict(cat="proof",tech="contract-based deductive verification: fram
    text="For the non-destructive list functions (cons append butlast subseq copy-list reverse remove* list* mapcar push substitute set functions; cdr/nthcdr/last/member as tail-returning) every store, append and copy must target storage allocated by the activation itself, and a returned list must be fresh or a true tail of an argument - for all argument lists, lengths and capacities. Delete.inList, shared with remove, carries the no-write contract. Stash.clear's sequence contract is included.",
    note="Callees that are not inlined are abstracted; lists returned by opaque callees are not known to be fresh (undecided). Destructive functions' window frames (M3) and insertMethod are not yet under contract. Replay oracle: storage overlap and argument snapshots on lists with spare capacity (harness/listalias).",
    ref="DESIGN 3 C06, family M")
+CHECKS["C01"]=dict(cat="proof",tech="contract-based deductive verification: contracts over a ghost evaluation trace (which sub-form is evaluated, how often, in which order, in which scope, with which result) on the evaluator's special forms, loop invariants, program-point assertions; WP over go/ssa; z3",
+   text="when unless if and or let let* setq dolist dotimes do (setupDo) lambda and DefLambda carry contracts taken from the language rules: the test form first and once, only the selected branch, body forms left to right exactly once, the value of the last form, init forms of let/do in the enclosing scope and of let* in the new one, the dolist result form sees the variable bound to nil, every evaluation of a lambda expression yields a new closure. Proved for all argument lists and all results of the sub-forms (each evaluation is an arbitrary ghost event).",
+   note="Every evaluation of a sub-form is abstracted as one event with arbitrary result and arbitrary heap effect; composition over nested forms is a meta-argument; Function.Eval argument order, cond/case clause selection, closure variable lookup order and iteration-form step order are not yet under contract.",
+   ref="DESIGN 3 C01, family T")
+CHECKS["C07"]=dict(cat="proof",tech="contract-based deductive verification: ghost evaluation trace (exit markers forwarded, nothing evaluated after them), ghost lock balance with path-sensitive deferred calls, fresh result markers; WP over go/ssa; z3",
+   text="when unless if and or let let* block with-mutex-lock: after a sub-form returns a return-from/go marker no further sub-form is evaluated and the marker is the result; block stops at the marker; return-from allocates its own marker per call; unwind-protect evaluates the protected form then every cleanup form exactly once in order on every non-error path (deferred closure inlined); with-mutex-lock holds the mutex during every body form and the lock balance at every return equals the balance at entry.",
+   note="Panicking exits (conditions) are not explored, so cleanup-on-error and release-on-error are not covered; tagbody/go target lookup, dolist/dotimes/do exit handling, with-open-file, ignore-errors and recover are not yet under contract.",
+   ref="DESIGN 3 C07, family T")
 NA={}
 m=json.load(open('/verif/MANIFEST.json'))
 m['checks']=[]
